@@ -68,6 +68,24 @@ def rsa_shared_pair(rng, aid1, aid2, bits=2048):
   return out
 
 
+def rsa_nm1_pair(rng, aid1, aid2, bits=2048):
+  """Two moduli without a common prime whose n - 1 share a 136-bit prime g (all four primes are 1 mod g)."""
+  g = art.rand_prime_top2(rng, 136)
+  def pr():
+    while True:
+      r = rng.getrandbits(bits // 2 - 137) | (3 << (bits // 2 - 139))
+      p = 2 * g * r + 1
+      if p.bit_length() == bits // 2 and gmpy2.is_prime(p):
+        return int(p)
+  out = []
+  for aid in (aid1, aid2):
+    p, q = pr(), pr()
+    n = p * q
+    crit = {c: 'may' for c in RSA_CHECKS}
+    out.append(checks.Art(aid, 'rsa', art.rsa_key(n), 'sharedprime-nm1', n=n, p=p, q=q, e=65537, crit=crit, shares_nm1=g))
+  return out
+
+
 def rsa_copy(a, aid):
   """A second protobuf with the same modulus (identical moduli never accuse each other)."""
   b = checks.Art(aid, 'rsa', art.rsa_key(a.meta['n'], a.meta.get('e', 65537)), a.cls + '-copy', **dict(a.meta))
